@@ -37,6 +37,9 @@ pub struct CaseResult {
     pub summary: Value,
     /// Path of the replay file written for the first violation, if any.
     pub replay: Option<String>,
+    /// Draws made per random stream (prim / pipe / node engines): the coordinates of replay cuts.
+    #[serde(default)]
+    pub draws: BTreeMap<String, u64>,
 }
 
 /// One batch of a check: `runs` executions of `engine` in `mode`, seeds derived from the base seed.
